@@ -12,6 +12,10 @@
 //	rand          any use of math/rand or math/rand/v2
 //	goroutine     go statements
 //	select        select statements
+//	stack         import of runtime/debug; calls debug.Stack / PrintStack, runtime.Stack / Caller / Callers / FuncForPC
+//	              (goroutine ids, program counters and addresses end up in the text)
+//	ptrfmt        fmt formatting with a %p verb, or of an argument whose static type is a chan, func, unsafe.Pointer
+//	              or pointer to a non-struct (printed as an address)
 //	state         (packages under x/ only) mutable process-level state that outlives a context branch:
 //	              package-level variables of map / slice / chan / pointer type, and fields of map / slice / chan /
 //	              pointer type in structs of keeper packages (a cache inside a keeper is not rolled back with the
@@ -215,6 +219,12 @@ func funcName(fd *ast.FuncDecl) string {
 // is compared is part of the mechanism); for float sites "inmaprange" once per occurrence that lies
 // lexically inside the body of a range over a map (an order-dependent accumulation candidate).
 func scan(af *ast.File, fname string, info *types.Info, counts map[site]int, details map[site][]string) {
+	for _, im := range af.Imports {
+		if im.Path.Value == "\"runtime/debug\"" {
+			counts[site{fname, "<imports>", "stack"}]++
+			details[site{fname, "<imports>", "stack"}] = append(details[site{fname, "<imports>", "stack"}], "runtime/debug")
+		}
+	}
 	inMapRange := 0
 	add := func(fn, kind string) {
 		counts[site{fname, fn, kind}]++
@@ -289,7 +299,25 @@ func scan(af *ast.File, fname string, info *types.Info, counts map[site]int, det
 						add(fn, "mapkeys")
 					case p == "strconv" && sel.Sel.Name == "FormatFloat":
 						add(fn, "floatfmt")
+					case p == "runtime/debug" && (sel.Sel.Name == "Stack" || sel.Sel.Name == "PrintStack"):
+						add(fn, "stack")
+						addDetail(fn, "stack", "debug."+sel.Sel.Name)
+					case p == "runtime" && (sel.Sel.Name == "Stack" || sel.Sel.Name == "Caller" || sel.Sel.Name == "Callers" || sel.Sel.Name == "FuncForPC"):
+						add(fn, "stack")
+						addDetail(fn, "stack", "runtime."+sel.Sel.Name)
 					case p == "fmt":
+						if len(x.Args) > 0 {
+							if lit, ok := x.Args[0].(*ast.BasicLit); ok && lit.Kind == token.STRING && strings.Contains(lit.Value, "%p") {
+								add(fn, "ptrfmt")
+								addDetail(fn, "ptrfmt", "%p")
+							}
+						}
+						for _, a := range x.Args {
+							if tv, ok := info.Types[a]; ok && tv.Type != nil && addressPrinted(tv.Type) {
+								add(fn, "ptrfmt")
+								addDetail(fn, "ptrfmt", shortType(tv.Type))
+							}
+						}
 						for _, a := range x.Args {
 							if tv, ok := info.Types[a]; ok && isFloat(tv.Type) {
 								add(fn, "floatfmt")
@@ -636,4 +664,30 @@ func (sf *stateFacts) emit(sb *strings.Builder) {
 	}
 	sort.Strings(sl)
 	sb.WriteString("(* functions whose first statement seals the router they were handed *)\nDefinition gen_seals_first : list string :=\n [" + strings.Join(sl, "; ") + "].\n\n")
+}
+
+// addressPrinted: fmt prints a value of this static type as an address
+func addressPrinted(t types.Type) bool {
+	switch u := t.Underlying().(type) {
+	case *types.Chan:
+		return true
+	case *types.Signature:
+		return true
+	case *types.Basic:
+		return u.Kind() == types.UnsafePointer
+	case *types.Pointer:
+		if _, isNamed := t.(*types.Named); isNamed {
+			return false
+		}
+		if n, ok := u.Elem().(*types.Named); ok { // pointers to named types usually have String()/Error() or print &{...}
+			_ = n
+			return false
+		}
+		switch u.Elem().Underlying().(type) {
+		case *types.Struct, *types.Array, *types.Slice, *types.Map:
+			return false
+		}
+		return true
+	}
+	return false
 }
